@@ -64,6 +64,9 @@ def known_len(x):
             return x[3][-1]
         if n in ("cb.add_virtual_targets",) and len(x[4]) >= 2 and P.const_of(x[4][1]) is not None:
             return P.const_of(x[4][1])
+        if n == "cb.split_le" and len(x[4]) >= 3:
+            c = P.const_of(x[4][2])
+            return c if c is not None else P.norm(x[4][2])   # split_le(x, n) returns exactly n bits
         if n == "cb.add_virtual_hash":
             return None
     if x[0] == "upd":
@@ -97,8 +100,14 @@ class Desc:
         self.rev = False   # the positions are visited from hi-1 down to lo (same variable, same domain)
         self.it = it
         self._go(it)
-        if self.range is not None and (self.colls or self.take is not None):
+        if self.range is not None and self.take is not None:
             self.other = True
+        if self.range is not None and self.colls:
+            # a range zipped with collections: the positions line up only when the range starts at 0 and every collection is
+            # known to be exactly as long as the range
+            lo, hi = _k(self.range[0]), _k(self.range[1])
+            if lo != 0 or not all(known_len(c) is not None and known_len(c) == hi for c in self.colls):
+                self.other = True
         if self.range is None and not self.colls:
             self.other = True
 
@@ -196,7 +205,7 @@ class Nest:
                 if gen in d.maps:
                     return self.var(k)
                 continue
-            if self.loops[k] == it or d.it == it or (d.range is None and base in d.colls and _takes(it) == d.take):
+            if self.loops[k] == it or d.it == it or (base in d.colls and _takes(it) == d.take):
                 return self.var(k)
         if self.fallback is not None:
             fv = self.fallback.var_for(it)
